@@ -532,6 +532,26 @@ fn run(cx: &mut Ctx, prop: Prop) {
                     cx.cover("poly1305_edge_controls", &name);
                 }
             }
+            // C17 only: boxes made under a *degenerate* sender key (a low-order point: the shared secret is all-zero, so
+            // anyone can compute the box key). libsodium refuses them; whatever this crate decides, a refusal must not
+            // leave the forged plaintext in the caller's buffer
+            if prop == Prop::C17 && (fam == Family::Box || fam == Family::Seal) && len > 0 {
+                let k0 = na::hsalsa20(&[0u8; 16], &[0u8; 32], None);
+                for (pn, low) in super::c05::special_points().into_iter().filter(|(n, _)| n.starts_with("loworder")) {
+                    let w = if fam == Family::Box {
+                        Wire { nonce, key: [0; 32], pk: low, sk: rsk, ct: na::secretbox_easy(&msg, &nonce, &k0) }
+                    } else {
+                        let mut h = low.to_vec();
+                        h.extend_from_slice(&rpk);
+                        let n24: [u8; 24] = na::generichash(24, &h, None).unwrap().try_into().unwrap();
+                        let mut ct = low.to_vec();
+                        ct.extend_from_slice(&na::secretbox_easy(&msg, &n24, &k0));
+                        Wire { nonce, key: [0; 32], pk: rpk, sk: rsk, ct }
+                    };
+                    judge.tampered(cx, fam, &w, "sender_public_key", "small_order(forged under an all-zero shared secret)", &pn, cheap_only, len);
+                    cx.cover("degenerate_sender_key", &pn);
+                }
+            }
             if prop == Prop::C17 {
                 // for one form and one wire length there are at most a length error and an authentication error;
                 // more distinct texts mean the text depends on the rejected bytes (or on the key)
